@@ -1,10 +1,20 @@
 package main
 
-// C17: the truth table of Client.isPayloadForbid (client.go). The body must be a single
-// `return <boolean expression>` over the method parameter, Client.AllowGetMethodPayload,
-// http.MethodXxx constants and string literals, combined with == != && || ! and parentheses;
-// the extractor EVALUATES it on a fixed method list x {false,true} and prints the table.
-// Anything else is refused.
+// C17: the truth table of Client.isPayloadForbid (client.go).
+//
+// The extractor does not compare the SHAPE of the function with anything: it INTERPRETS the
+// function on a fixed method list x {AllowGetMethodPayload false, true} and prints the table of
+// results, so every behaviour-preserving rewriting inside the interpreted subset gives the same
+// table: a single boolean expression, if / else-if chains, guard clauses, tagged and tagless
+// switches, values hoisted into locals, named results, and a call to a helper function or method
+// of the same package (followed, at most two levels deep).
+//
+// Subset: statements return / if (with init) / switch (tagged or tagless, with init, no
+// fallthrough) / := and = of a single identifier / var x = e / blocks; expressions over the
+// method parameter, the receiver's AllowGetMethodPayload field, http.MethodXxx constants,
+// string and boolean literals with == != && || ! and parentheses, strings.ToUpper / ToLower /
+// EqualFold, and calls to same-package functions / methods of the receiver. Anything else is
+// not guessed: the generated table is `none` and the table stays pinned by the lanes alone.
 
 import (
 	"fmt"
@@ -21,22 +31,27 @@ var c17HTTPMethods = map[string]string{
 
 var c17MethodList = []string{"GET", "HEAD", "POST", "PUT", "PATCH", "DELETE", "CONNECT", "OPTIONS", "TRACE", "get", "head", ""}
 
-type c17Env struct {
-	recv, param string
-	method      string
-	allow       bool
-}
-
 type c17Val struct {
 	isBool bool
 	b      bool
 	s      string
+	isRecv bool // the receiver itself (only usable as `recv.AllowGetMethodPayload` / `recv.helper(...)`)
 }
 
-func c17Eval(e ast.Expr, env *c17Env) (c17Val, error) {
+type c17Interp struct {
+	c     *ctx
+	allow bool
+}
+
+type c17Frame struct {
+	vars   map[string]c17Val
+	result string // name of a named result, "" if none
+}
+
+func (in *c17Interp) eval(e ast.Expr, fr *c17Frame, depth int) (c17Val, error) {
 	switch x := e.(type) {
 	case *ast.ParenExpr:
-		return c17Eval(x.X, env)
+		return in.eval(x.X, fr, depth)
 	case *ast.BasicLit:
 		if x.Kind != token.STRING {
 			return c17Val{}, fmt.Errorf("literal %s is not a string", x.Value)
@@ -44,108 +59,369 @@ func c17Eval(e ast.Expr, env *c17Env) (c17Val, error) {
 		s, err := strconv.Unquote(x.Value)
 		return c17Val{s: s}, err
 	case *ast.Ident:
-		if x.Name == env.param {
-			return c17Val{s: env.method}, nil
+		if v, ok := fr.vars[x.Name]; ok {
+			return v, nil
 		}
 		if x.Name == "true" || x.Name == "false" {
 			return c17Val{isBool: true, b: x.Name == "true"}, nil
 		}
 		return c17Val{}, fmt.Errorf("unknown identifier %s", x.Name)
 	case *ast.SelectorExpr:
-		id, ok := x.X.(*ast.Ident)
-		if !ok {
-			return c17Val{}, fmt.Errorf("unsupported selector")
-		}
-		if id.Name == "http" {
+		if id, ok := x.X.(*ast.Ident); ok && id.Name == "http" {
 			if m, ok := c17HTTPMethods[x.Sel.Name]; ok {
 				return c17Val{s: m}, nil
 			}
 			return c17Val{}, fmt.Errorf("unknown constant http.%s", x.Sel.Name)
 		}
-		if id.Name == env.recv && x.Sel.Name == "AllowGetMethodPayload" {
-			return c17Val{isBool: true, b: env.allow}, nil
+		base, err := in.eval(x.X, fr, depth)
+		if err != nil {
+			return c17Val{}, err
 		}
-		return c17Val{}, fmt.Errorf("unsupported selector %s.%s", id.Name, x.Sel.Name)
+		if base.isRecv && x.Sel.Name == "AllowGetMethodPayload" {
+			return c17Val{isBool: true, b: in.allow}, nil
+		}
+		return c17Val{}, fmt.Errorf("unsupported selector .%s", x.Sel.Name)
 	case *ast.UnaryExpr:
 		if x.Op != token.NOT {
 			return c17Val{}, fmt.Errorf("unsupported unary operator %s", x.Op)
 		}
-		v, err := c17Eval(x.X, env)
-		if err != nil || !v.isBool {
-			return c17Val{}, fmt.Errorf("! applied to a non-boolean (%v)", err)
+		v, err := in.eval(x.X, fr, depth)
+		if err != nil {
+			return c17Val{}, err
+		}
+		if !v.isBool {
+			return c17Val{}, fmt.Errorf("! applied to a non-boolean")
 		}
 		return c17Val{isBool: true, b: !v.b}, nil
 	case *ast.BinaryExpr:
-		l, err := c17Eval(x.X, env)
+		l, err := in.eval(x.X, fr, depth)
 		if err != nil {
 			return c17Val{}, err
 		}
-		r, err := c17Eval(x.Y, env)
+		// && and || do not evaluate the right side when the left decides (no side effects in
+		// the subset, but an unsupported right side must not be an error then either)
+		if x.Op == token.LAND || x.Op == token.LOR {
+			if !l.isBool {
+				return c17Val{}, fmt.Errorf("%s on a non-boolean", x.Op)
+			}
+			if (x.Op == token.LAND && !l.b) || (x.Op == token.LOR && l.b) {
+				return l, nil
+			}
+			r, err := in.eval(x.Y, fr, depth)
+			if err != nil {
+				return c17Val{}, err
+			}
+			if !r.isBool {
+				return c17Val{}, fmt.Errorf("%s on a non-boolean", x.Op)
+			}
+			return r, nil
+		}
+		r, err := in.eval(x.Y, fr, depth)
 		if err != nil {
 			return c17Val{}, err
 		}
-		switch x.Op {
-		case token.LAND, token.LOR:
-			if !l.isBool || !r.isBool {
-				return c17Val{}, fmt.Errorf("%s on non-booleans", x.Op)
-			}
-			if x.Op == token.LAND {
-				return c17Val{isBool: true, b: l.b && r.b}, nil
-			}
-			return c17Val{isBool: true, b: l.b || r.b}, nil
-		case token.EQL, token.NEQ:
-			if l.isBool != r.isBool {
+		if x.Op == token.EQL || x.Op == token.NEQ {
+			if l.isBool != r.isBool || l.isRecv || r.isRecv {
 				return c17Val{}, fmt.Errorf("comparison of different kinds")
 			}
 			eq := (l.isBool && l.b == r.b) || (!l.isBool && l.s == r.s)
 			return c17Val{isBool: true, b: eq == (x.Op == token.EQL)}, nil
 		}
 		return c17Val{}, fmt.Errorf("unsupported operator %s", x.Op)
+	case *ast.CallExpr:
+		var args []c17Val
+		for _, a := range x.Args {
+			v, err := in.eval(a, fr, depth)
+			if err != nil {
+				return c17Val{}, err
+			}
+			args = append(args, v)
+		}
+		switch fn := x.Fun.(type) {
+		case *ast.SelectorExpr:
+			if id, ok := fn.X.(*ast.Ident); ok && id.Name == "strings" {
+				switch {
+				case fn.Sel.Name == "ToUpper" && len(args) == 1 && !args[0].isBool:
+					return c17Val{s: strings.ToUpper(args[0].s)}, nil
+				case fn.Sel.Name == "ToLower" && len(args) == 1 && !args[0].isBool:
+					return c17Val{s: strings.ToLower(args[0].s)}, nil
+				case fn.Sel.Name == "EqualFold" && len(args) == 2 && !args[0].isBool && !args[1].isBool:
+					return c17Val{isBool: true, b: strings.EqualFold(args[0].s, args[1].s)}, nil
+				}
+				return c17Val{}, fmt.Errorf("unsupported call strings.%s", fn.Sel.Name)
+			}
+			base, err := in.eval(fn.X, fr, depth)
+			if err != nil {
+				return c17Val{}, err
+			}
+			if !base.isRecv {
+				return c17Val{}, fmt.Errorf("call of a method on something that is not the receiver")
+			}
+			fd, err := in.c.funcDecl("", "Client", fn.Sel.Name)
+			if err != nil {
+				return c17Val{}, err
+			}
+			return in.call(fd, &base, args, depth+1)
+		case *ast.Ident:
+			fd, err := in.c.funcDecl("", "", fn.Name)
+			if err != nil {
+				return c17Val{}, err
+			}
+			return in.call(fd, nil, args, depth+1)
+		}
+		return c17Val{}, fmt.Errorf("unsupported call")
 	}
 	return c17Val{}, fmt.Errorf("unsupported expression %T", e)
 }
 
-func init() {
-	register("C17Facts", func(c *ctx) (string, error) {
-		fd, err := c.funcDecl("", "Client", "isPayloadForbid")
-		if err != nil {
-			return "", err
+// call interprets a function of the package with the given receiver and arguments.
+func (in *c17Interp) call(fd *ast.FuncDecl, recv *c17Val, args []c17Val, depth int) (c17Val, error) {
+	if depth > 2 {
+		return c17Val{}, fmt.Errorf("helper calls nested deeper than two levels")
+	}
+	if fd.Body == nil {
+		return c17Val{}, fmt.Errorf("%s has no body", fd.Name.Name)
+	}
+	fr := &c17Frame{vars: map[string]c17Val{}}
+	if recv != nil {
+		if fd.Recv == nil || len(fd.Recv.List) != 1 {
+			return c17Val{}, fmt.Errorf("%s: not a method", fd.Name.Name)
 		}
-		if fd.Type.Params == nil || len(fd.Type.Params.List) != 1 || len(fd.Type.Params.List[0].Names) != 1 {
-			return "", fmt.Errorf("isPayloadForbid: expected exactly one parameter")
+		if len(fd.Recv.List[0].Names) == 1 {
+			fr.vars[fd.Recv.List[0].Names[0].Name] = *recv
 		}
-		if fd.Recv == nil || len(fd.Recv.List) != 1 || len(fd.Recv.List[0].Names) != 1 {
-			return "", fmt.Errorf("isPayloadForbid: expected a named receiver")
-		}
-		if fd.Body == nil || len(fd.Body.List) != 1 {
-			return "", fmt.Errorf("isPayloadForbid: body is not a single statement")
-		}
-		ret, ok := fd.Body.List[0].(*ast.ReturnStmt)
-		if !ok || len(ret.Results) != 1 {
-			return "", fmt.Errorf("isPayloadForbid: body is not `return <expr>`")
-		}
-		env := &c17Env{recv: fd.Recv.List[0].Names[0].Name, param: fd.Type.Params.List[0].Names[0].Name}
-		var rows []string
-		for _, m := range c17MethodList {
-			for _, allow := range []bool{false, true} {
-				env.method, env.allow = m, allow
-				v, err := c17Eval(ret.Results[0], env)
-				if err != nil {
-					return "", fmt.Errorf("isPayloadForbid: %v", err)
+	}
+	i := 0
+	if fd.Type.Params != nil {
+		for _, f := range fd.Type.Params.List {
+			for _, nm := range f.Names {
+				if i >= len(args) {
+					return c17Val{}, fmt.Errorf("%s: too few arguments", fd.Name.Name)
 				}
-				if !v.isBool {
-					return "", fmt.Errorf("isPayloadForbid: result is not boolean")
-				}
-				rows = append(rows, fmt.Sprintf("(%s, %v, %v)", strconv.Quote(m), allow, v.b))
+				fr.vars[nm.Name] = args[i]
+				i++
 			}
 		}
+	}
+	if i != len(args) {
+		return c17Val{}, fmt.Errorf("%s: argument count mismatch", fd.Name.Name)
+	}
+	if fd.Type.Results == nil || len(fd.Type.Results.List) != 1 || len(fd.Type.Results.List[0].Names) > 1 {
+		return c17Val{}, fmt.Errorf("%s: exactly one result expected", fd.Name.Name)
+	}
+	if id, ok := fd.Type.Results.List[0].Type.(*ast.Ident); !ok || (id.Name != "bool" && id.Name != "string") {
+		return c17Val{}, fmt.Errorf("%s: result type not bool/string", fd.Name.Name)
+	} else if len(fd.Type.Results.List[0].Names) == 1 {
+		fr.result = fd.Type.Results.List[0].Names[0].Name
+		fr.vars[fr.result] = c17Val{isBool: id.Name == "bool"}
+	}
+	done, v, err := in.exec(fd.Body.List, fr, depth)
+	if err != nil {
+		return c17Val{}, fmt.Errorf("%s: %v", fd.Name.Name, err)
+	}
+	if !done {
+		return c17Val{}, fmt.Errorf("%s: control reaches the end without return", fd.Name.Name)
+	}
+	return v, nil
+}
+
+func (in *c17Interp) assign(lhs []ast.Expr, rhs []ast.Expr, fr *c17Frame, depth int) error {
+	if len(lhs) != 1 || len(rhs) != 1 {
+		return fmt.Errorf("only single assignments are supported")
+	}
+	id, ok := lhs[0].(*ast.Ident)
+	if !ok {
+		return fmt.Errorf("assignment to something that is not a local variable")
+	}
+	v, err := in.eval(rhs[0], fr, depth)
+	if err != nil {
+		return err
+	}
+	fr.vars[id.Name] = v
+	return nil
+}
+
+// exec runs statements; done reports that a return was executed.
+func (in *c17Interp) exec(stmts []ast.Stmt, fr *c17Frame, depth int) (done bool, v c17Val, err error) {
+	for _, st := range stmts {
+		switch x := st.(type) {
+		case *ast.ReturnStmt:
+			if len(x.Results) == 0 && fr.result != "" {
+				return true, fr.vars[fr.result], nil
+			}
+			if len(x.Results) != 1 {
+				return false, v, fmt.Errorf("return with %d results", len(x.Results))
+			}
+			v, err = in.eval(x.Results[0], fr, depth)
+			return true, v, err
+		case *ast.BlockStmt:
+			if done, v, err = in.exec(x.List, fr, depth); done || err != nil {
+				return
+			}
+		case *ast.AssignStmt:
+			if x.Tok != token.DEFINE && x.Tok != token.ASSIGN {
+				return false, v, fmt.Errorf("unsupported assignment operator %s", x.Tok)
+			}
+			if err = in.assign(x.Lhs, x.Rhs, fr, depth); err != nil {
+				return
+			}
+		case *ast.DeclStmt:
+			gd, ok := x.Decl.(*ast.GenDecl)
+			if !ok || gd.Tok != token.VAR {
+				return false, v, fmt.Errorf("unsupported declaration")
+			}
+			for _, sp := range gd.Specs {
+				vs := sp.(*ast.ValueSpec)
+				if len(vs.Names) != 1 {
+					return false, v, fmt.Errorf("unsupported var declaration")
+				}
+				if len(vs.Values) == 1 {
+					val, e := in.eval(vs.Values[0], fr, depth)
+					if e != nil {
+						return false, v, e
+					}
+					fr.vars[vs.Names[0].Name] = val
+				} else if id, ok := vs.Type.(*ast.Ident); ok && (id.Name == "bool" || id.Name == "string") {
+					fr.vars[vs.Names[0].Name] = c17Val{isBool: id.Name == "bool"}
+				} else {
+					return false, v, fmt.Errorf("unsupported var declaration")
+				}
+			}
+		case *ast.IfStmt:
+			if x.Init != nil {
+				if done, v, err = in.exec([]ast.Stmt{x.Init}, fr, depth); done || err != nil {
+					return
+				}
+			}
+			cond, e := in.eval(x.Cond, fr, depth)
+			if e != nil {
+				return false, v, e
+			}
+			if !cond.isBool {
+				return false, v, fmt.Errorf("if on a non-boolean")
+			}
+			if cond.b {
+				if done, v, err = in.exec(x.Body.List, fr, depth); done || err != nil {
+					return
+				}
+			} else if x.Else != nil {
+				if done, v, err = in.exec([]ast.Stmt{x.Else}, fr, depth); done || err != nil {
+					return
+				}
+			}
+		case *ast.SwitchStmt:
+			if x.Init != nil {
+				if done, v, err = in.exec([]ast.Stmt{x.Init}, fr, depth); done || err != nil {
+					return
+				}
+			}
+			var tag *c17Val
+			if x.Tag != nil {
+				t, e := in.eval(x.Tag, fr, depth)
+				if e != nil {
+					return false, v, e
+				}
+				tag = &t
+			}
+			var chosen, deflt *ast.CaseClause
+		clauses:
+			for _, cl := range x.Body.List {
+				cc := cl.(*ast.CaseClause)
+				if cc.List == nil {
+					deflt = cc
+					continue
+				}
+				for _, ce := range cc.List {
+					cv, e := in.eval(ce, fr, depth)
+					if e != nil {
+						return false, v, e
+					}
+					match := false
+					if tag == nil {
+						if !cv.isBool {
+							return false, v, fmt.Errorf("tagless switch case is not boolean")
+						}
+						match = cv.b
+					} else {
+						if cv.isBool != tag.isBool {
+							return false, v, fmt.Errorf("switch case of another kind than the tag")
+						}
+						match = (tag.isBool && tag.b == cv.b) || (!tag.isBool && tag.s == cv.s)
+					}
+					if match {
+						chosen = cc
+						break clauses
+					}
+				}
+			}
+			if chosen == nil {
+				chosen = deflt
+			}
+			if chosen != nil {
+				for _, b := range chosen.Body {
+					if br, ok := b.(*ast.BranchStmt); ok {
+						if br.Tok == token.BREAK && br.Label == nil {
+							break
+						}
+						return false, v, fmt.Errorf("unsupported %s in switch", br.Tok)
+					}
+					if done, v, err = in.exec([]ast.Stmt{b}, fr, depth); done || err != nil {
+						return
+					}
+				}
+			}
+		default:
+			return false, v, fmt.Errorf("unsupported statement %T", st)
+		}
+	}
+	return false, v, nil
+}
+
+func init() {
+	register("C17Facts", func(c *ctx) (string, error) {
 		var sb strings.Builder
 		sb.WriteString("/-! C17: truth table of `Client.isPayloadForbid` (client.go), evaluated from its source:\n")
-		sb.WriteString("(method, AllowGetMethodPayload, result). -/\n")
+		sb.WriteString("(method, AllowGetMethodPayload, result); `none` when the function has left the subset the\n")
+		sb.WriteString("extractor interprets (the table is then pinned by the behavioural lanes `body` / `e2e` only). -/\n")
 		sb.WriteString("namespace Generated.C17Facts\n\n")
-		sb.WriteString("def payloadForbidTable : List (String × Bool × Bool) := [\n  ")
-		sb.WriteString(strings.Join(rows, ",\n  "))
-		sb.WriteString("\n]\n\nend Generated.C17Facts\n")
+		rows, err := c17Table(c)
+		if err != nil {
+			// The same table is pinned behaviourally by lane `body` (every listed method x both
+			// settings through the real parseRequestBody) and by `e2e`: an uninterpretable
+			// shape is therefore reported in the generated file, not turned into an alarm.
+			sb.WriteString("-- NOT EXTRACTED: " + strings.ReplaceAll(err.Error(), "\n", " ") + "\n")
+			sb.WriteString("def payloadForbidTable : Option (List (String × Bool × Bool)) := none\n")
+		} else {
+			sb.WriteString("def payloadForbidTable : Option (List (String × Bool × Bool)) := some [\n  ")
+			sb.WriteString(strings.Join(rows, ",\n  "))
+			sb.WriteString("\n]\n")
+		}
+		sb.WriteString("\nend Generated.C17Facts\n")
 		return sb.String(), nil
 	})
+}
+
+func c17Table(c *ctx) ([]string, error) {
+	fd, err := c.funcDecl("", "Client", "isPayloadForbid")
+	if err != nil {
+		return nil, err
+	}
+	if fd.Type.Params == nil || len(fd.Type.Params.List) != 1 || len(fd.Type.Params.List[0].Names) != 1 {
+		return nil, fmt.Errorf("isPayloadForbid: expected exactly one parameter")
+	}
+	var rows []string
+	for _, m := range c17MethodList {
+		for _, allow := range []bool{false, true} {
+			in := &c17Interp{c: c, allow: allow}
+			v, err := in.call(fd, &c17Val{isRecv: true}, []c17Val{{s: m}}, 0)
+			if err != nil {
+				return nil, err
+			}
+			if !v.isBool {
+				return nil, fmt.Errorf("isPayloadForbid: result is not boolean")
+			}
+			rows = append(rows, fmt.Sprintf("(%s, %v, %v)", strconv.Quote(m), allow, v.b))
+		}
+	}
+	return rows, nil
 }
